@@ -412,10 +412,33 @@ def mc_laws(res, tier, wd):
     res.add_mc(r, "MC_XPath (laws of XDM/XNum/XPathSem over %d documents)" % len(fam))
 
 
+MC_POS = os.path.join(ROOT, "spec/mc/MC_PositionCache.tla")
+
+
+def mc_position_cache(res, wd):
+    """PositionCacheImpl: the context-node-list stack with its one-entry position cache answers position() by the definition for
+    every sequence of push / pop / position(); without either of the two clears TLC finds the stale answer (the witnesses)."""
+    from concurrent.futures import ThreadPoolExecutor
+    def cfg(name, push, pop):
+        p_ = os.path.join(wd, name)
+        open(p_, "w").write("SPECIFICATION Spec\nCONSTANTS N = 3\n MaxLen = 2\n MaxDepth = 3\n ClearOnPush = %s\n ClearOnPop = %s\nINVARIANT PositionIsDefinition\n" % (push, pop))
+        return p_
+    with ThreadPoolExecutor(max_workers=3) as ex:
+        f0 = ex.submit(vlib.tlc_mc, MC_POS, cfg("pc.cfg", "TRUE", "TRUE"), name="c02pc", workers=2, timeout=1500, extra=["-noGenerateSpecTE"])
+        f1 = ex.submit(vlib.tlc, MC_POS, cfg("pc1.cfg", "TRUE", "FALSE"), name="c02pc1", workers=1, timeout=1500, extra=["-noGenerateSpecTE"])
+        f2 = ex.submit(vlib.tlc, MC_POS, cfg("pc2.cfg", "FALSE", "TRUE"), name="c02pc2", workers=1, timeout=1500, extra=["-noGenerateSpecTE"])
+        r, r1, r2 = f0.result(), f1.result(), f2.result()
+    res.add_mc(r, "MC_PositionCache (context node list stack + one-entry position cache = the definition of position())")
+    for w in (r1, r2):
+        if "Invariant PositionIsDefinition is violated" not in w["out"]:
+            raise vlib.Infra("MC_PositionCache without one of the cache clears no longer finds the stale position:\n" + w["out"][-1500:])
+
+
 def run(res, tier, seed):
     rng = random.Random(seed)
     wd = vlib.workdir("c02-%d" % os.getpid())
     mc_laws(res, tier, wd)
+    mc_position_cache(res, wd)
     docs, flats, cases = build_cases(rng, tier)
     events, crashes = run_cases(docs, flats, cases, wd)
     for c, err, rc in crashes:
